@@ -194,7 +194,6 @@ def targets():
             "_find_terminal_nodes": (gen_seq, "_find_terminal_nodes", "func"),
             "_tag_nodes": (gen_seq, "_tag_nodes", "func"),
             "node_link_data": (json_graph, "node_link_data", "func"),
-            "open": (gen_seq, "open", "open"),
             "json.dump": (json, "dump", "func"),
         },
     }
@@ -255,6 +254,25 @@ class Session:
         had = attr in vars(obj)
         self.saved.append((obj, attr, had, vars(obj).get(attr)))
         setattr(obj, attr, new)
+
+    def install_builtin_open(self, outpath, label):
+        """every builtin open(<the output path>, 'w'|'a'|'+') of the run is seen: stage `label` is hit and the
+        handle is wrapped (so a direct write to the output can be interrupted half way like a deferred one)"""
+        import builtins
+        orig = builtins.open
+        session = self
+        target = os.path.realpath(str(outpath))
+
+        def opener(file, mode="r", *args, **kwargs):
+            try:
+                same = isinstance(file, (str, os.PathLike)) and os.path.realpath(os.fspath(file)) == target
+            except (TypeError, ValueError):
+                same = False
+            if not same or not any(c in mode for c in "wa+x"):
+                return orig(file, mode, *args, **kwargs)
+            session.hit(label)
+            return HandleProxy(orig(file, mode, *args, **kwargs), session)
+        self._set(builtins, "open", opener)
 
     def install(self, table):
         import builtins
@@ -379,6 +397,9 @@ def execute(prog, call, indir, outdir, out, table, crash_label=None, crash_write
     cwd = os.getcwd()
     error = None
     session.install(table)
+    # gen_seq's stage "open" is the builtin; for the deferred programs a builtin open of the output path is
+    # not part of the stage list (label outside the model) but is still seen and can be interrupted
+    session.install_builtin_open(Path(outdir) / out, "open" if prog == "gen_seq" else "builtin-open(output)")
     try:
         if relative:
             os.chdir(outdir)
@@ -491,13 +512,20 @@ def search_without_plan(ctx, prog, vname, flags, out, call, table, indir, scratc
     reached = set(session.trace)
     unresolved = set(label for kind, label in rows if not kind.startswith("write") and label not in reached)
     return dict(prog=prog, vname=vname, flags=flags, out=out, call=call, rows=rows, chunks=[content], half=0,
-                content=content, unresolved=unresolved, nwrites=0, write_label=None, tie=False)
+                content=content, unresolved=unresolved, nwrites=len(session.writes), write_label=None, tie=False)
 
 
 def crash_points(plan):
     """(model crash index, label to raise at | None, write number to raise at | None)"""
     points = []
     seen_write = 0
+    if not plan.get("tie", True):
+        # no usable stage list: interrupt the serialisation wherever the output (or its temporary file) is
+        # written, judged as "before the flush" (model index of the first write stage)
+        first_write = next((i for i, (k, _) in enumerate(plan["rows"]) if k.startswith("write")), None)
+        if first_write is not None and plan["nwrites"]:
+            for wnum in sorted(set([0, plan["nwrites"] // 2, plan["nwrites"] - 1])):
+                points.append((first_write, None, wnum))
     for idx, (kind, label) in enumerate(plan["rows"]):
         if kind.startswith("write") and not plan.get("tie", True):
             continue
